@@ -178,7 +178,7 @@ def experiment(rng, base_dir, n_inst=None, n_beads=None, n_samples=None, units_p
         if k == 0 and zero_fraction_first:
             ti, wt = 'full', True           # a row that keeps no events, on a file with a time channel and a time step
         info['sample_specs']['S%d' % k] = sample_file(rng, it, os.path.join(base_dir, fn), with_time=wt, time_info=ti,
-                                                      n=70001 if (big_first and k == 0) else None,
+                                                      n=140001 if (big_first and k == 0) else None,
                                                       floatdata=('D' if (rng.random() < 0.4 or (force_float_first == 'D' and k == 0))
                                                                  else True) if isf else False,
                                                       col_perm=(lambda D_: rng.permutation(D_)) if rng.random() < permute_columns else None)
